@@ -154,6 +154,22 @@ static void k_dealloc(void *p, size_t n)
   a.deallocate((T *)p, n);
 }
 
+// default alignment template argument (what AlignedVector uses): must give 64
+template <typename T>
+static void *k_allocD(size_t n, size_t, bool hint)
+{
+  aligned_allocator<T> a;
+  if (hint)
+    return a.allocate(n, (const void *)0);
+  return a.allocate(n);
+}
+template <typename T>
+static void k_deallocD(void *p, size_t n)
+{
+  aligned_allocator<T> a;
+  a.deallocate((T *)p, n);
+}
+
 static const Kind KINDS[] = {
     {"alignedMalloc", "alignedMalloc(size,align)", 1, 0, k_raw, k_free},
     {"alignedMalloc-default-align", "alignedMalloc(size)", 1, 64, k_rawDefault, k_free},
@@ -161,15 +177,16 @@ static const Kind KINDS[] = {
     {"alignedMalloc-typed", "alignedMalloc<double>(n,align)", 8, 0, k_typed<double>, k_free},
     {"alignedMalloc-typed", "alignedMalloc<S24>(n,align)", 24, 0, k_typed<S24>, k_free},
     {"alignedMalloc-typed", "alignedMalloc<S100>(n,align)", 100, 0, k_typed<S100>, k_free},
-    {"allocator", "aligned_allocator<char>", 1, 64, k_alloc<char, 64>, k_dealloc<char, 64>},
-    {"allocator", "aligned_allocator<int>", 4, 64, k_alloc<int, 64>, k_dealloc<int, 64>},
-    {"allocator", "aligned_allocator<double>", 8, 64, k_alloc<double, 64>, k_dealloc<double, 64>},
-    {"allocator", "aligned_allocator<S24>", 24, 64, k_alloc<S24, 64>, k_dealloc<S24, 64>},
-    {"allocator", "aligned_allocator<S100>", 100, 64, k_alloc<S100, 64>, k_dealloc<S100, 64>},
+    {"allocator", "aligned_allocator<char>", 1, 64, k_allocD<char>, k_deallocD<char>},
+    {"allocator", "aligned_allocator<int>", 4, 64, k_allocD<int>, k_deallocD<int>},
+    {"allocator", "aligned_allocator<double>", 8, 64, k_allocD<double>, k_deallocD<double>},
+    {"allocator", "aligned_allocator<S24>", 24, 64, k_allocD<S24>, k_deallocD<S24>},
+    {"allocator", "aligned_allocator<S100>", 100, 64, k_allocD<S100>, k_deallocD<S100>},
     {"allocator", "aligned_allocator<char,1>", 1, 1, k_alloc<char, 1>, k_dealloc<char, 1>},
     {"allocator", "aligned_allocator<double,16>", 8, 16, k_alloc<double, 16>, k_dealloc<double, 16>},
     {"allocator", "aligned_allocator<S24,128>", 24, 128, k_alloc<S24, 128>, k_dealloc<S24, 128>},
     {"allocator", "aligned_allocator<int,256>", 4, 256, k_alloc<int, 256>, k_dealloc<int, 256>},
+    {"allocator", "aligned_allocator<uint16_t,64>", 2, 64, k_alloc<uint16_t, 64>, k_dealloc<uint16_t, 64>},
     {"allocator", "aligned_allocator<S100,4096>", 100, 4096, k_alloc<S100, 4096>, k_dealloc<S100, 4096>},
 };
 static const int NKINDS     = sizeof(KINDS) / sizeof(KINDS[0]);
